@@ -65,3 +65,36 @@ pub fn run(out: &mut dyn FnMut(String)) {
         }
     }
 }
+
+/// C04: every scalar instruction matching `filter` on the full square of the integer boundary pool
+/// (256 ordered pairs, so MIN / -1, MIN % -1, MAX + 1, x / 0 ... are always met), with the float
+/// operands walking the square of the float boundary pool (484 pairs) and all boolean pairs
+pub fn run_scalar(filter: &str, out: &mut dyn FnMut(String)) {
+    use crate::gen::{FLOAT_POOL, INT_POOL};
+    let mut iset = make_iset(false);
+    let names = crate::stategen::instruction_names();
+    for name in names.iter().filter(|n| crate::scen_exec::matches_filter(n, filter)) {
+        let floaty = name.contains("FLOAT");
+        let cases = if floaty { FLOAT_POOL.len() * FLOAT_POOL.len() } else { INT_POOL.len() * INT_POOL.len() };
+        for k in 0..cases {
+            let mut s = PushState::new();
+            s.int_stack.push(777);
+            s.float_stack.push(7.25);
+            s.bool_stack.push(true);
+            s.name_stack.push("by".to_string());
+            s.code_stack.push(Item::int(-5));
+            s.exec_stack.push(Item::name("z".to_string()));
+            let (ia, ib) = (INT_POOL[(k / INT_POOL.len()) % INT_POOL.len()], INT_POOL[k % INT_POOL.len()]);
+            let (fa, fb) = (FLOAT_POOL[(k / FLOAT_POOL.len()) % FLOAT_POOL.len()], FLOAT_POOL[k % FLOAT_POOL.len()]);
+            s.int_stack.push(ia);
+            s.int_stack.push(ib);
+            s.float_stack.push(f32::from_bits(fa));
+            s.float_stack.push(f32::from_bits(fb));
+            s.bool_stack.push(k & 2 != 0);
+            s.bool_stack.push(k & 1 != 0);
+            s.name_stack.push(["a", "b", "a"][k % 3].to_string());
+            s.name_stack.push(["a", "b", "b"][(k / 3) % 3].to_string());
+            out(observe_exec(&mut iset, name, s));
+        }
+    }
+}
